@@ -269,19 +269,11 @@ def run(tier, r):
             "stats": stats, "samples": samples}
 
 
-def replay(case):
-    """re-run in a FRESH interpreter: state leaking between solver instances (class attributes, module globals, shared
-    defaults) also contaminates 'solo' runs made later in the same process, so an in-process replay could miss it"""
-    import json
-    import subprocess
-    code = ("import sys, json; sys.path.insert(0, %r); from oracles import c12; "
-            "case = json.load(sys.stdin); v, _ = c12.run_case(case); "
-            "print('@@' + json.dumps([{k: x[k] for k in x if k != 'case'} for x in v], default=str))" % _H)
-    p = subprocess.run([sys.executable, "-c", code], input=json.dumps(case["case"]), stdout=subprocess.PIPE,
-                       stderr=subprocess.PIPE, text=True, env=dict(os.environ), timeout=600)
-    line = next((l for l in p.stdout.split("\n") if l.startswith("@@")), None)
-    if line is None:
-        return {"reproduced": False, "detail": "replay subprocess failed: " + p.stderr[-500:]}
-    v = json.loads(line[2:])
+def _replay_here(case):
+    v, _ = run_case(case["case"])
     same = [x for x in v if x["what"] == case.get("what")]
-    return {"reproduced": bool(same), "detail": (same or v)[:2]}
+    return {"reproduced": bool(same), "detail": [{k: x[k] for k in x if k != "case"} for x in (same or v)[:2]]}
+
+
+def replay(case):
+    return oc.replay_in_subprocess("c12", case)
